@@ -1,81 +1,189 @@
 ---------------------------- MODULE CompoundImpl ----------------------------
-(* Implementation-shaped model of parsec/compound.c with the pieces of scheduling.c and of the local termination
-   detector it relies on.
+(* Implementation-shaped model of parsec/compound.c with the pieces of scheduling.c (parsec_context_add_taskpool,
+   parsec_taskpool_termination_detected, parsec_context_start) and of the local termination detector it relies on.
+   Every function is the sequence of steps the code performs; a thread executes the steps of the frame on top of
+   its call stack, so that a completion callback can run NESTED inside parsec_context_add_taskpool (a member with
+   nothing to do terminates synchronously in taskpool_ready()) or CONCURRENTLY on another thread (the member's
+   tasks were given to the scheduler and a worker finished them while the enabling thread had not yet resumed).
 
-   parsec_context_add_taskpool(compound):  the compound has no termination-detection module: the "local" one is
-       installed and taskpool_ready() is called (AddReady) -- with ReadyBeforeStartup = TRUE this happens, as in
-       scheduling.c, BEFORE the startup hook gave the compound its runtime actions; then active_taskpools++ and
-       parsec_compound_taskpool_startup (Startup): set_runtime_actions(NP), completion callbacks on the members,
-       add_taskpool(member 1).  With ReadyBeforeStartup = FALSE the module is installed by parsec_compose and
-       taskpool_ready() is called at the end of the startup hook (the proposed repair).
-   member taskpool i: its tasks run once it was added (TaskStart/TaskEnd); when all are done its own detector calls
-       parsec_composed_taskpool_cb (MemberDone): completed_taskpools++, addto_runtime_actions(-1), if some remain
-       add_taskpool(member completed+1).
-   local detector of the compound (Detect): when the pending actions are 0 while the monitor is BUSY the taskpool is
-       declared terminated: on_complete of the compound (cdone++) and active_taskpools--.
+   parsec_compound_taskpool_startup (frame "startup", run by the main thread inside add_taskpool(compound)):
+       acct   taskpool_set_runtime_actions(nb_taskpools)             pa := NP
+       ready  taskpool_ready()                                       mon := busy (terminated when pa = 0)
+       add    parsec_context_add_taskpool(taskpool_array[0])         Enable(1)
+       ret
+   parsec_composed_taskpool_cb (frame "cb" of member m, run by the thread that detected the termination of m):
+       inc    k = completed_taskpools++
+       dec    remaining = addto_runtime_actions(-1)                  may terminate the compound: cdone++
+       add    if remaining > 0: add_taskpool(taskpool_array[k+1])    Enable(k+2)   (members are numbered from 1)
+       ret    back in parsec_taskpool_termination_detected: active_taskpools--
+   Enable(m) = parsec_context_add_taskpool(member m): active_taskpools++, the tasks of m become runnable; a member
+       without task either terminates inside the call (callback frame pushed on the same thread: e.g. a map operator
+       over a matrix without local tile) or later (e.g. a PTG taskpool with an empty execution space, whose
+       internal startup tasks still have to run).
+   MemberTerminates(th, m): an idle thread detects the termination of member m (all its tasks done) and runs its
+       completion callback.
+   Usage "before": the compound is added before parsec_context_start (no task runs, no other thread works until the
+   main thread has returned from add_taskpool); "running": the context was started first.
 
-   CompoundImpl refines Compound (cur = completed + 1): the two properties are checked as invariants. *)
-EXTENDS Integers, Sequences, FiniteSets
-CONSTANTS NP, NT, ReadyBeforeStartup
-VARIABLES pc,         \* progress of add_taskpool(compound): "new" -> ("ready" ->) "started"
+   Order selects the order of the steps:
+       "code"                  the order of compound.c
+       "cursor_after_enable"   the callback only reads the cursor at the top and increments it after add  (seeded)
+       "account_after_enable"  the startup does add first, then acct, ready                                (seeded)
+       "ready_before_account"  ready, acct, add: the order obtained when parsec_context_add_taskpool installs the
+                               detector of a compound that has none (the defect repaired in compound.c)
+   Only "code" refines Compound; each of the others violates an invariant or deadlocks (sensitivity self-tests).
+
+   History variables (not read by any guard): sync = empty members that terminated inside Enable, win = members
+   whose termination was detected while the frame that enabled them was still on a stack.  The terminal states give
+   the scenarios (layout, usage, sync, win) that the check replays on the real code. *)
+EXTENDS Integers, Sequences, FiniteSets, TLC, Json
+CONSTANTS Layouts, NTH, Order, Usages
+VARIABLES nt,         \* tasks per member
+          usage,      \* "before" | "running"
+          mainpc,     \* main thread: "begin" -> "adding" (inside add_taskpool(compound)) -> "wait" (parsec_context_wait)
+          started,    \* parsec_context_start done: workers run
+          stack,      \* per thread: sequence of frames
           mon,        \* monitor of the compound's detector: "not_ready" | "busy" | "terminated"
           pa,         \* nb_pending_actions of the compound
           completed,  \* compound->completed_taskpools
-          added,      \* members added to the context
+          enabled,    \* per member: number of parsec_context_add_taskpool calls
+          term,       \* per member: termination detected
           state,      \* tasks
           cdone,      \* calls of the compound's completion callback
-          active      \* context->active_taskpools (without the reference of parsec_context_start)
-vars == <<pc, mon, pa, completed, added, state, cdone, active>>
-Tasks == {t \in (1..NP) \X (1..3) : t[2] <= NT[t[1]]}
+          active,     \* context->active_taskpools (without the reference of parsec_context_start)
+          sync, win   \* history
+vars == <<nt, usage, mainpc, started, stack, mon, pa, completed, enabled, term, state, cdone, active, sync, win>>
+NP == Len(nt)
+TasksOf(l) == {t \in (1..Len(l)) \X (1..3) : t[2] <= l[t[1]]}
+Tasks == TasksOf(nt)
+Th == 1..NTH
+AllDone(m) == \A t \in Tasks : t[1] = m => state[t] = "done"
 
-Init == /\ pc = "new" /\ mon = "not_ready" /\ pa = 0 /\ completed = 0 /\ added = {} /\ cdone = 0 /\ active = 0
-        /\ state = [t \in Tasks |-> "idle"]
+Frame(f, m, pc) == [f |-> f, m |-> m, pc |-> pc, k |-> 0, rem |-> 0, en |-> 0]
+SOrder == CASE Order = "account_after_enable" -> <<"add", "acct", "ready", "ret">>
+            [] Order = "ready_before_account" -> <<"ready", "acct", "add", "ret">>
+            [] OTHER -> <<"acct", "ready", "add", "ret">>
+COrder == <<"inc", "dec", "add", "ret">>
+After(seq, pc) == seq[(CHOOSE i \in 1..Len(seq) : seq[i] = pc) + 1]
+Top(th) == stack[th][Len(stack[th])]
+At(th, f, pc) == stack[th] # <<>> /\ Top(th).f = f /\ Top(th).pc = pc
+Idle(th) == stack[th] = <<>> /\ started /\ (th = 1 => mainpc = "wait")
 
-\* termdet_local: taskpool_ready / addto_runtime_actions detect termination when nothing is pending
-Terminates(m, p) == m = "busy" /\ p = 0
+Init == /\ nt \in Layouts /\ usage \in Usages /\ mainpc = "begin" /\ started = (usage = "running")
+        /\ stack = [th \in Th |-> <<>>] /\ mon = "not_ready" /\ pa = 0 /\ completed = 0
+        /\ enabled = [m \in 1..Len(nt) |-> 0] /\ term = [m \in 1..Len(nt) |-> FALSE]
+        /\ state = [t \in TasksOf(nt) |-> "idle"] /\ cdone = 0 /\ active = 0 /\ sync = {} /\ win = {}
 
-\* scheduling.c: tp->tdm.module == NULL => open "local", monitor, taskpool_ready(tp)
-AddReady == /\ pc = "new" /\ ReadyBeforeStartup
-            /\ pc' = "ready"
-            /\ IF pa = 0 THEN mon' = "terminated" /\ cdone' = cdone + 1 /\ active' = active - 1
-               ELSE mon' = "busy" /\ UNCHANGED <<cdone, active>>
-            /\ UNCHANGED <<pa, completed, added, state>>
+\* ---- main thread -----------------------------------------------------------------------------------------------------
+\* parsec_context_add_taskpool(compound): active_taskpools++, startup hook
+AddCompound == /\ mainpc = "begin" /\ mainpc' = "adding"
+               /\ stack' = [stack EXCEPT ![1] = <<Frame("startup", 0, SOrder[1])>>]
+               /\ active' = active + 1
+               /\ UNCHANGED <<nt, usage, started, mon, pa, completed, enabled, term, state, cdone, sync, win>>
+\* add_taskpool returned; parsec_context_start (usage "before"), then parsec_context_wait
+MainWait == /\ mainpc = "adding" /\ stack[1] = <<>> /\ mainpc' = "wait" /\ started' = TRUE
+            /\ UNCHANGED <<nt, usage, stack, mon, pa, completed, enabled, term, state, cdone, active, sync, win>>
 
-\* active_taskpools++ ; parsec_compound_taskpool_startup
-Startup == /\ pc = (IF ReadyBeforeStartup THEN "ready" ELSE "new")
-           /\ pc' = "started"
-           /\ pa' = NP                                    \* taskpool_set_runtime_actions(nb_taskpools)
-           /\ added' = {1}                                \* parsec_context_add_taskpool(taskpool_array[0])
-           /\ active' = active + 2                        \* the compound and its first member
-           /\ mon' = IF ReadyBeforeStartup THEN mon ELSE "busy"     \* repaired: taskpool_ready() after the accounting
-           /\ UNCHANGED <<completed, state, cdone>>
+\* ---- parsec_context_add_taskpool(member m) called by the top frame of th (which moves to pc npc) -------------------
+\* returns the new stack; the other effects are in EnableRest
+EnableStack(th, m, npc, nested) ==
+    LET me == [Top(th) EXCEPT !.pc = npc, !.en = m]
+        base == [stack EXCEPT ![th] = [@ EXCEPT ![Len(@)] = me]] IN
+    IF nested THEN [base EXCEPT ![th] = Append(@, Frame("cb", m, COrder[1]))] ELSE base
+Enable(th, m, npc) ==
+    /\ m \in 1..NP                       \* (taskpool_array[m-1] # NULL: invariant NextExists)
+    /\ enabled' = [enabled EXCEPT ![m] = @ + 1]
+    /\ active' = active + 1
+    /\ \/ /\ nt[m] = 0 /\ ~term[m]       \* nothing to do: taskpool_ready() inside add_taskpool detects the termination
+          /\ term' = [term EXCEPT ![m] = TRUE] /\ sync' = sync \cup {m}
+          /\ stack' = EnableStack(th, m, npc, TRUE)
+       \/ /\ stack' = EnableStack(th, m, npc, FALSE)
+          /\ UNCHANGED <<term, sync>>
 
-TaskStart(t) == /\ t[1] \in added /\ state[t] = "idle"
+\* ---- parsec_compound_taskpool_startup ---------------------------------------------------------------------------------
+Advance(th, seq) == stack' = [stack EXCEPT ![th] = [@ EXCEPT ![Len(@)] = [Top(th) EXCEPT !.pc = After(seq, Top(th).pc)]]]
+SAcct(th) == /\ At(th, "startup", "acct") /\ pa' = NP /\ Advance(th, SOrder)
+             /\ UNCHANGED <<nt, usage, mainpc, started, mon, completed, enabled, term, state, cdone, active, sync, win>>
+SReady(th) == /\ At(th, "startup", "ready") /\ mon = "not_ready" /\ Advance(th, SOrder)
+              /\ IF pa = 0 THEN mon' = "terminated" /\ cdone' = cdone + 1 /\ active' = active - 1
+                 ELSE mon' = "busy" /\ UNCHANGED <<cdone, active>>
+              /\ UNCHANGED <<nt, usage, mainpc, started, pa, completed, enabled, term, state, sync, win>>
+SAdd(th) == /\ At(th, "startup", "add") /\ Enable(th, 1, After(SOrder, "add"))
+            /\ UNCHANGED <<nt, usage, mainpc, started, mon, pa, completed, state, cdone, win>>
+Ret(th) == /\ stack[th] # <<>> /\ Top(th).pc = "ret"
+           /\ stack' = [stack EXCEPT ![th] = SubSeq(@, 1, Len(@) - 1)]
+           /\ IF Top(th).f = "cb"
+              THEN /\ active' = active - 1          \* parsec_taskpool_termination_detected of the member
+                   /\ completed' = IF Order = "cursor_after_enable" /\ Top(th).rem > 0 THEN completed + 1 ELSE completed
+              ELSE UNCHANGED <<active, completed>>
+           /\ UNCHANGED <<nt, usage, mainpc, started, mon, pa, enabled, term, state, cdone, sync, win>>
+
+\* ---- parsec_composed_taskpool_cb ----------------------------------------------------------------------------------------
+CInc(th) == /\ At(th, "cb", "inc")
+            /\ stack' = [stack EXCEPT ![th] = [@ EXCEPT ![Len(@)] = [Top(th) EXCEPT !.pc = "dec", !.k = completed]]]
+            /\ completed' = IF Order = "cursor_after_enable" THEN completed ELSE completed + 1
+            /\ UNCHANGED <<nt, usage, mainpc, started, mon, pa, enabled, term, state, cdone, active, sync, win>>
+CDec(th) == /\ At(th, "cb", "dec")
+            /\ stack' = [stack EXCEPT ![th] = [@ EXCEPT ![Len(@)] = [Top(th) EXCEPT !.pc = "add", !.rem = pa - 1]]]
+            /\ pa' = pa - 1
+            /\ IF mon = "busy" /\ pa - 1 = 0                 \* termdet_local: the compound terminates, its callback runs
+               THEN mon' = "terminated" /\ cdone' = cdone + 1 /\ active' = active - 1
+               ELSE UNCHANGED <<mon, cdone, active>>
+            /\ UNCHANGED <<nt, usage, mainpc, started, completed, enabled, term, state, sync, win>>
+CAdd(th) == /\ At(th, "cb", "add")
+            /\ IF Top(th).rem > 0
+               THEN Enable(th, Top(th).k + 2, "ret")
+               ELSE Advance(th, COrder) /\ UNCHANGED <<enabled, active, term, sync>>
+            /\ UNCHANGED <<nt, usage, mainpc, started, mon, pa, completed, state, cdone, win>>
+
+\* ---- tasks and termination of the members ------------------------------------------------------------------------------
+TaskStart(t) == /\ enabled[t[1]] > 0 /\ state[t] = "idle" /\ \E th \in Th : Idle(th)
                 /\ state' = [state EXCEPT ![t] = "run"]
-                /\ UNCHANGED <<pc, mon, pa, completed, added, cdone, active>>
+                /\ UNCHANGED <<nt, usage, mainpc, started, stack, mon, pa, completed, enabled, term, cdone, active, sync, win>>
 TaskEnd(t) == /\ state[t] = "run"
               /\ state' = [state EXCEPT ![t] = "done"]
-              /\ UNCHANGED <<pc, mon, pa, completed, added, cdone, active>>
+              /\ UNCHANGED <<nt, usage, mainpc, started, stack, mon, pa, completed, enabled, term, cdone, active, sync, win>>
+MemberTerminates(th, m) ==
+    /\ Idle(th) /\ enabled[m] > 0 /\ ~term[m] /\ AllDone(m)
+    /\ term' = [term EXCEPT ![m] = TRUE]
+    /\ stack' = [stack EXCEPT ![th] = <<Frame("cb", m, COrder[1])>>]
+    /\ win' = IF \E u \in Th : \E i \in 1..Len(stack[u]) : stack[u][i].en = m THEN win \cup {m} ELSE win
+    /\ UNCHANGED <<nt, usage, mainpc, started, mon, pa, completed, enabled, state, cdone, active, sync>>
 
-\* termination of member i: parsec_taskpool_termination_detected -> parsec_composed_taskpool_cb, active_taskpools--
-MemberDone(i) ==
-    /\ i \in added /\ i = completed + 1 /\ \A t \in Tasks : t[1] = i => state[t] = "done"
-    /\ completed' = completed + 1
-    /\ pa' = pa - 1
-    /\ LET remaining == pa - 1 IN
-       /\ added' = IF remaining > 0 THEN added \cup {completed + 2} ELSE added
-       /\ IF Terminates(mon, remaining)
-          THEN mon' = "terminated" /\ cdone' = cdone + 1 /\ active' = active - 1 + (IF remaining > 0 THEN 1 ELSE 0) - 1
-          ELSE UNCHANGED <<mon, cdone>> /\ active' = active - 1 + (IF remaining > 0 THEN 1 ELSE 0)
-    /\ UNCHANGED <<pc, state>>
-
-Finished == completed = NP /\ UNCHANGED vars
-Next == AddReady \/ Startup \/ (\E t \in Tasks : TaskStart(t) \/ TaskEnd(t)) \/ (\E i \in 1..NP : MemberDone(i)) \/ Finished
+AtEnd == cdone = 1 /\ mainpc = "wait" /\ \A th \in Th : stack[th] = <<>>
+Finished == AtEnd /\ UNCHANGED vars
+Next == \/ AddCompound \/ MainWait
+        \/ \E th \in Th : SAcct(th)
+        \/ \E th \in Th : SReady(th)
+        \/ \E th \in Th : SAdd(th)
+        \/ \E th \in Th : Ret(th)
+        \/ \E th \in Th : CInc(th)
+        \/ \E th \in Th : CDec(th)
+        \/ \E th \in Th : CAdd(th)
+        \/ \E t \in Tasks : TaskStart(t)
+        \/ \E t \in Tasks : TaskEnd(t)
+        \/ \E th \in Th : \E m \in 1..NP : MemberTerminates(th, m)
+        \/ Finished
 Spec == Init /\ [][Next]_vars
 
-\* ---- refinement of Compound: cur = completed + 1 --------------------------------------------------------------------
+\* ---- refinement of Compound: cur = number of terminated members + 1 ------------------------------------------------
+curBar == Cardinality({m \in 1..NP : term[m]}) + 1
+Abs == INSTANCE Compound WITH cur <- curBar
+Refines == Abs!Spec
+
 OneAfterAnother == \A t \in Tasks : state[t] # "idle" => \A u \in Tasks : u[1] < t[1] => state[u] = "done"
 CompletesOnceAfterLast == cdone <= 1 /\ (cdone = 1 => \A t \in Tasks : state[t] = "done")
-CompletesAtEnd == completed = NP => cdone = 1
-ContextCount == active >= 0 /\ (completed = NP => active = 0)
+\* every member is enabled at most once, in composition order, after its predecessor terminated
+EnabledOnce == \A m \in 1..NP : enabled[m] <= 1 /\ (enabled[m] > 0 => \A j \in 1..(m - 1) : term[j])
+\* the assert at the top of the callback: the taskpool that completed is the one under the cursor
+CursorMatches == \A th \in Th : \A i \in 1..Len(stack[th]) :
+                    LET f == stack[th][i] IN (f.f = "cb" /\ f.pc # "inc") => f.m = f.k + 1
+\* the assert before enabling the successor: there is one
+NextExists == \A th \in Th : \A i \in 1..Len(stack[th]) :
+                    LET f == stack[th][i] IN (f.f = "cb" /\ f.pc = "add" /\ f.rem > 0) => f.k + 2 <= NP
+Accounted == pa >= 0 /\ pa <= NP
+ContextCount == active >= 0 /\ (AtEnd => active = 0 /\ completed = NP /\ \A m \in 1..NP : term[m])
+
+\* the scenarios for the runs on the real code
+Emit == AtEnd => PrintT(<<"VH", ToJson([nt |-> nt, usage |-> usage, sync |-> sync, win |-> win])>>)
 =============================================================================
